@@ -129,6 +129,11 @@ pub fn decode_strings(ctx: &Ctx, rng: &mut impl RngCore, nvalid: usize, nrand: u
             }
         }
     }
+    // encodings for which an *intermediate* of the decoder (u1, u2) is a structured value: zero / all-ones low
+    // limbs, 2-adic relations with q (limb-level routines applied to intermediates meet their special cases)
+    for s in crate::eng::decode_s_for_intermediates(ctx, rng) {
+        out.push((to_le(&s, 32), "engineered-intermediate"));
+    }
     // aliases s + q of *valid* encodings s that a folded word comparison confuses with s (the construction
     // yields many aliases; those whose s is a valid encoding and that keep the top three bits clear are kept)
     for w in [64usize, 32] {
@@ -276,7 +281,7 @@ pub fn run_c01(ctx: &Ctx, rec: &mut Rec) {
     for cl in ["identity", "identity'", "G", "other-rep", "rescaled", "elligator", "random-decode", "kG", "program-register"] {
         rec.declare_class(&format!("fwd:{cl}"));
     }
-    for cl in ["valid", "alias s+kq", "q-s", "bit-flip", "boundary", "random", "produced-encoding", "engineered-sqrt-exponent", "q-delta", "nonsquare-candidate-on-curve", "field-zoo value"] {
+    for cl in ["valid", "alias s+kq", "q-s", "bit-flip", "boundary", "random", "produced-encoding", "engineered-sqrt-exponent", "q-delta", "nonsquare-candidate-on-curve", "field-zoo value", "engineered-intermediate"] {
         rec.declare_class(&format!("bwd:{cl}"));
     }
     // forward on the zoo (all presentations) and on program registers
@@ -410,7 +415,7 @@ pub fn run_c02(ctx: &Ctx, rec: &mut Rec) {
     for e in &eps {
         rec.declare_form(e.name);
     }
-    for cl in ["valid", "alias s+kq", "q-s", "bit-flip", "top-bits", "boundary", "q+delta", "q-delta", "engineered-sqrt-exponent", "nonsquare-candidate-on-curve", "field-zoo value", "random", "random-masked-even", "length", "textual"] {
+    for cl in ["valid", "alias s+kq", "q-s", "bit-flip", "top-bits", "boundary", "q+delta", "q-delta", "engineered-sqrt-exponent", "nonsquare-candidate-on-curve", "field-zoo value", "engineered-intermediate", "random", "random-masked-even", "length", "textual"] {
         rec.declare_class(cl);
     }
     let mut srng = rng_for(ctx.seed, P, 999, 0);
